@@ -147,11 +147,24 @@ func c16Units(ctx *core.Ctx) []core.Unit {
 		d := d
 		us = append(us, core.Unit{Name: "decode " + d.name, Run: func(ctx *core.Ctx, r *core.Result) {
 			strs := c16ByteStrings(ctx.Seed, ctx.Thorough())
-			for _, b := range strs {
+			for bi_, b := range strs {
 				if d.only32 && len(b) != 32 {
 					continue
 				}
 				in := fmt.Sprintf("%s(%x) [len %d]", d.name, b, len(b))
+				if bi_%4 == 1 {
+					// history: over-long (and, for the canonical decoder, rejected) strings were decoded just before
+					long := make([]byte, 64)
+					for i := range long {
+						long[i] = byte(0xA1 + 3*i)
+					}
+					var t fr.Element
+					t.SetBytes(long)
+					t.SetBytesLE(long)
+					t.SetBytesLECanonical(long)
+					t.SetBytesLE(long[:47])
+					in += " after decodes of 64- and 47-byte strings"
+				}
 				var want *big.Int
 				if d.le {
 					want = leInt(b)
